@@ -181,6 +181,37 @@ func (r Rec) goValue() interface{} {
 	return nil
 }
 
+// recPtrSlicePtr builds &[]*X{…}.
+func recPtrSlicePtr(rows []Rec) interface{} {
+	switch rows[0].Table {
+	case "items":
+		out := make([]*Item, len(rows))
+		for i, r := range rows {
+			out[i] = r.goPtr().(*Item)
+		}
+		return &out
+	case "owners":
+		out := make([]*Owner, len(rows))
+		for i, r := range rows {
+			out[i] = r.goPtr().(*Owner)
+		}
+		return &out
+	default:
+		out := make([]*Tag, len(rows))
+		for i, r := range rows {
+			out[i] = r.goPtr().(*Tag)
+		}
+		return &out
+	}
+}
+
+func (c *Chain) rowsValue() interface{} {
+	if c.PtrElems {
+		return recPtrSlicePtr(c.Rows)
+	}
+	return recSlicePtr(c.Rows)
+}
+
 func recSlicePtr(rows []Rec) interface{} {
 	switch rows[0].Table {
 	case "items":
@@ -255,6 +286,11 @@ func applyConds(tx, root *gorm.DB, conds []Cond) *gorm.DB {
 			tx = tx.Or(q, args...)
 		case "clauses":
 			tx = tx.Clauses(q.([]clause.Expression)...)
+		case "whereclause":
+			tx = tx.Clauses(clause.Where{Exprs: q.([]clause.Expression)})
+		case "scope":
+			sq, sargs := q, args
+			tx = tx.Scopes(func(d *gorm.DB) *gorm.DB { return d.Where(sq, sargs...) })
 		default:
 			panic("chains: unknown condition op " + c.Op)
 		}
@@ -285,6 +321,9 @@ func (c *Chain) buildFrom(start, root *gorm.DB) *gorm.DB {
 	if c.SkipHooks {
 		tx = tx.Session(&gorm.Session{SkipHooks: true})
 	}
+	if c.AllowGlobal {
+		tx = tx.Session(&gorm.Session{AllowGlobalUpdate: true})
+	}
 	table, model := tableOf(c.Base)
 	switch {
 	case c.Kind == "raw" || c.Kind == "exec" || c.Kind == "save" || c.Kind == "firstor":
@@ -304,6 +343,19 @@ func (c *Chain) buildFrom(start, root *gorm.DB) *gorm.DB {
 	}
 	if c.Unscoped {
 		tx = tx.Unscoped()
+	}
+	if c.Distinct {
+		tx = tx.Distinct()
+	}
+	switch c.ColMode {
+	case "select":
+		rest := make([]interface{}, len(c.Cols)-1)
+		for i, s := range c.Cols[1:] {
+			rest[i] = s
+		}
+		tx = tx.Select(c.Cols[0], rest...)
+	case "omit":
+		tx = tx.Omit(c.Cols...)
 	}
 	if len(c.SelCols) > 0 {
 		rest := make([]interface{}, len(c.SelCols)-1)
@@ -440,6 +492,24 @@ func (c *Chain) ApplyFrom(start, root *gorm.DB) *gorm.DB {
 			return tx.Pluck(c.PluckCol, &[]sql.NullString{})
 		case "scan":
 			return tx.Scan(&[]map[string]interface{}{})
+		case "batches":
+			return tx.FindInBatches(c.destSlice(), c.FindBatch, func(*gorm.DB, int) error { return nil })
+		case "rows":
+			rows, err := tx.Rows()
+			if rows != nil {
+				err = rows.Close()
+			}
+			res := root.Session(&gorm.Session{NewDB: true})
+			res.Error = err
+			return res
+		case "row":
+			res := root.Session(&gorm.Session{NewDB: true})
+			if row := tx.Row(); row != nil {
+				var sink interface{}
+				_ = row.Scan(&sink) // releases the connection; the column count does not matter here
+				res.Error = row.Err()
+			}
+			return res
 		}
 	case "update":
 		switch c.UpKind {
@@ -452,8 +522,14 @@ func (c *Chain) ApplyFrom(start, root *gorm.DB) *gorm.DB {
 		case "updatecolumns-map":
 			return tx.UpdateColumns(kvMap(c.SetKeys, c.SetVals, root))
 		case "updates-struct":
+			if c.SetPtr {
+				return tx.Updates(c.SetRec.goPtr())
+			}
 			return tx.Updates(c.SetRec.goValue())
 		case "updatecolumns-struct":
+			if c.SetPtr {
+				return tx.UpdateColumns(c.SetRec.goPtr())
+			}
 			return tx.UpdateColumns(c.SetRec.goValue())
 		}
 	case "delete":
@@ -468,17 +544,24 @@ func (c *Chain) ApplyFrom(start, root *gorm.DB) *gorm.DB {
 		case "slice":
 			switch c.Batch {
 			case "inbatches":
-				return tx.CreateInBatches(recSlicePtr(c.Rows), c.BatchSize)
+				return tx.CreateInBatches(c.rowsValue(), c.BatchSize)
 			case "session":
-				return tx.Session(&gorm.Session{CreateBatchSize: c.BatchSize}).Create(recSlicePtr(c.Rows))
+				return tx.Session(&gorm.Session{CreateBatchSize: c.BatchSize}).Create(c.rowsValue())
 			}
-			return tx.Create(recSlicePtr(c.Rows)) // also Batch "config": the handle carries the size
+			return tx.Create(c.rowsValue()) // also Batch "config": the handle carries the size
 		case "map":
-			return tx.Create(kvMap(c.MapRows[0].Keys, c.MapRows[0].Vals, root))
+			m := kvMap(c.MapRows[0].Keys, c.MapRows[0].Vals, root)
+			if c.MapPtr {
+				return tx.Create(&m)
+			}
+			return tx.Create(m)
 		case "maps":
 			ms := make([]map[string]interface{}, len(c.MapRows))
 			for i, r := range c.MapRows {
 				ms[i] = kvMap(r.Keys, r.Vals, root)
+			}
+			if c.MapPtr {
+				return tx.Create(&ms)
 			}
 			return tx.Create(ms)
 		}
@@ -486,10 +569,19 @@ func (c *Chain) ApplyFrom(start, root *gorm.DB) *gorm.DB {
 		if c.CrKind == "struct" {
 			return tx.Save(c.Rows[0].goPtr())
 		}
-		return tx.Save(recSlicePtr(c.Rows))
+		return tx.Save(c.rowsValue())
 	case "firstor":
 		dest := Rec{Table: c.Rows[0].Table}.goPtr()
 		cond := c.Rows[0].goValue()
+		if c.WithModel {
+			tx = tx.Model(Rec{Table: c.Rows[0].Table}.goPtr())
+		}
+		if c.Attrs != nil {
+			tx = tx.Attrs(c.Attrs.goValue())
+		}
+		if c.Assign != nil {
+			tx = tx.Assign(c.Assign.goValue())
+		}
 		switch {
 		case c.Fin == "firstorinit" && c.InlineCond:
 			return tx.FirstOrInit(dest, cond)
@@ -522,6 +614,11 @@ func (c *Chain) Write() bool {
 // Batched: the create is split into batches; the handle a dry run returns then exposes no statement.
 func (c *Chain) Batched() bool { return c.Kind == "create" && c.Batch != "" }
 
+// HiddenQuery: Row, Rows and FindInBatches run on a statement the caller never sees.
+func (c *Chain) HiddenQuery() bool {
+	return c.Kind == "query" && (c.Fin == "row" || c.Fin == "rows" || c.Fin == "batches")
+}
+
 // ConfigBatchSize is the Config.CreateBatchSize the handle must be opened with (0 = none).
 func (c *Chain) ConfigBatchSize() int {
 	if c.Batched() && c.Batch == "config" {
@@ -532,7 +629,7 @@ func (c *Chain) ConfigBatchSize() int {
 
 // MayNotFind: finishers that report ErrRecordNotFound on an empty result.
 func (c *Chain) MayNotFind() bool {
-	return c.Kind == "query" && (c.Fin == "first" || c.Fin == "take" || c.Fin == "last")
+	return c.Kind == "query" && (c.Fin == "first" || c.Fin == "take" || c.Fin == "last" || c.Fin == "row")
 }
 
 // CreatesFromMap: Create(map) / Create([]map).
